@@ -50,7 +50,7 @@ def main():
             h = s.cc(os.path.join(VERIF, "harness/c16_trigger.c"), os.path.join(s.dir, "h_c16"),
                      extra="%s/harness/sim.c %s %s %s %s -lpthread -ldl" % (VERIF, o1, o2, o3, o4))
             drv = driver_path("drv_c16")
-            nrand, ndfs = (250, 150) if c.tier == "quick" else (4000, 7000)
+            nrand, ndfs = (250, 150) if c.tier == "quick" else (3000, 5000)
             hsel = s.cc(os.path.join(VERIF, "harness/c16_selprep.c"), os.path.join(s.dir, "h_c16sel"),
                         extra="%s/harness/sim.c %s %s %s %s -lpthread -ldl" % (VERIF, o1, o2, e1, e2))
             cmds = []
@@ -88,7 +88,7 @@ def main():
                 # START-UP leg: injector A starts together with the daemon (its steps interleave with todo_init's open, the first selects, the start-up
                 # re-arm and the first scan, or finish before the daemon's first step): bounded-exhaustive for one injector, random for two
                 cmds += ["%s 4 %d %d %d %d" % (h, 150 if c.tier == "quick" else 4000, c.seed, i, 27) for i in range(27)]
-                cmds += ["%s 5 %d %d %d %d" % (h, 20 if c.tier == "quick" else 600, c.seed, i, NCPU) for i in range(NCPU)]
+                cmds += ["%s 5 %d %d %d %d" % (h, 20 if c.tier == "quick" else 300, c.seed, i, NCPU) for i in range(NCPU)]
             outs = run_pipeline(cmds, drv) if cmds else []
             stats, samples, disagree, oracle, errors = parse_driver_output(outs)
             # select-preparation leg: the daemon scenarios of qsend.c with a snapshot of the daemon's globals at every select
@@ -170,7 +170,7 @@ def main():
                      "0..999 permille of the timeout, nothing else happening at that call) at selects drawn from the whole run, clean stops/crashes followed by a restart on the deferred queue, "
                      "every answer of qmail-clean taking `slow=` seconds (time passing inside the do-phase), restart sweeps (deliveries in flight, TERM at each of the next 8 selects, a second "
                      "injection 0..2 selects later while daemon #1 drains, then daemon #2 on that queue), and interrupt sweeps (base run, then one run per select point - every idle select with messages queued, every select next to a command/report/arrival, every 16th other - "
-                     "with SIGALRM/SIGHUP interrupting exactly that select). non-trivial = distinct schedule / scenario" % ("capped at 150 schedules per partition in the quick tier" if c.tier == "quick" else "thorough tier: partitioned by the first three decisions, capped at 7000 schedules in each of the 27 partitions"))
+                     "with SIGALRM/SIGHUP interrupting exactly that select). non-trivial = distinct schedule / scenario" % ("capped at 150 schedules per partition in the quick tier" if c.tier == "quick" else "thorough tier: partitioned by the first three decisions, capped at 5000 schedules in each of the 27 partitions"))
     c.cov["exhaustive"] = False
     c.cov["samples"] = samples[:6] or ["(none)"]
     c.cov["input_distribution"] = {k: v for k, v in stats.items() if k.startswith("ev_") or k.startswith("snap_") or k.startswith("daemon_")}
